@@ -268,6 +268,15 @@ def dispatch(task):
     return run_fuzz(task) if task.get("kind") == "fuzz" else run_shard(task)
 
 
+def _child_entry(conn, kind, task):
+    """Process entry point: run one task, send its result through the pipe."""
+    try:
+        res = replay_task(task) if kind == "regress" else dispatch(task)
+        conn.send(res)
+    finally:
+        conn.close()
+
+
 def have_atheris():
     return os.path.isdir(os.path.join(VERIF_DIR, ".deps", "atheris"))
 
@@ -407,57 +416,66 @@ def main(argv=None):
 
     results, errors, violations = [], [], []
     regress_n = 0
-    # one fresh process per shard: Hypothesis harvests constants from the modules a process has
-    # imported, so with reused workers the cases of a shard would depend on what ran there before.
-    # concurrent.futures reports a worker that died (BrokenProcessPool) at once instead of waiting
-    # for the time budget.
-    from concurrent.futures import FIRST_COMPLETED, ProcessPoolExecutor, wait
+    # One fresh process per shard (Hypothesis harvests constants from the modules a process has
+    # imported, so with reused workers the cases of a shard would depend on what ran there before).
+    # The processes are managed directly: a worker that dies is noticed at once (exit 2), nothing
+    # can dead-lock inside pool / executor machinery, and leftovers are killed when the budget ends.
+    from multiprocessing.connection import wait as conn_wait
 
-    ex = ProcessPoolExecutor(max_workers=min(args.jobs, max(1, len(tasks) + 1)), mp_context=ctx,
-                             max_tasks_per_child=1)
+    queue = [("shard", t) for t in tasks]
+    if regress:
+        queue.insert(0, ("regress", {"prop": prop, "paths": regress}))
+    max_active = max(1, min(args.jobs, len(queue)))
+    active = {}  # recv connection -> (process, kind, task)
+
+    def _handle(kind, task, res):
+        nonlocal regress_n
+        if kind == "regress":
+            if res["error"]:
+                errors.append("regress replay: " + res["error"])
+            for x in res["results"]:
+                regress_n += 1
+                if not x["ok"]:
+                    violations.append({"sub": x["sub"], "key": x["key"], "detail": x["detail"], "case": x["case"],
+                                       "path": os.path.relpath(x["path"], VERIF_DIR)})
+            return
+        results.append(res)
+        if res["error"]:
+            errors.append(f"{res['sub']}#{res['shard']}: {res['error']}")
+
     try:
-        pending = {ex.submit(dispatch, t): t for t in tasks}
-        rr = ex.submit(replay_task, {"prop": prop, "paths": regress}) if regress else None
-        if rr is not None:
-            pending[rr] = None
-        broken = False
-        while pending and not broken:
-            remaining = budget - (time.time() - t0)
-            done, _ = wait(list(pending), timeout=max(1.0, remaining), return_when=FIRST_COMPLETED)
-            if not done:
+        failed = False
+        while (queue or active) and not failed:
+            while queue and len(active) < max_active:
+                kind, task = queue.pop(0)
+                rx, tx = ctx.Pipe(duplex=False)
+                pr = ctx.Process(target=_child_entry, args=(tx, kind, task), daemon=True)
+                pr.start()
+                tx.close()
+                active[rx] = (pr, kind, task)
+            if time.time() - t0 > budget:
                 errors.append(f"time budget of {budget}s exhausted (inconclusive)")
                 break
-            for f in done:
-                task = pending.pop(f)
+            for rx in conn_wait(list(active), timeout=1.0):
+                pr, kind, task = active.pop(rx)
+                what = f"{task['sub']}#{task['shard']}" if kind == "shard" else "regress replay"
                 try:
-                    res = f.result()
-                except BaseException as e:  # noqa: BLE001  (worker died / could not be started)
-                    what = f"{task['sub']}#{task['shard']}" if task else "regress replay"
-                    errors.append(f"{what}: worker failed: {type(e).__name__}: {e}")
-                    broken = True
+                    res = rx.recv()
+                except (EOFError, OSError):
+                    pr.join(timeout=5)
+                    errors.append(f"{what}: worker died without a result (exit code {pr.exitcode})")
+                    failed = True
                     continue
-                if f is rr:
-                    if res["error"]:
-                        errors.append("regress replay: " + res["error"])
-                    for x in res["results"]:
-                        regress_n += 1
-                        if not x["ok"]:
-                            violations.append({"sub": x["sub"], "key": x["key"], "detail": x["detail"],
-                                               "case": x["case"],
-                                               "path": os.path.relpath(x["path"], VERIF_DIR)})
-                    continue
-                results.append(res)
-                if res["error"]:
-                    errors.append(f"{res['sub']}#{res['shard']}: {res['error']}")
+                finally:
+                    rx.close()
+                pr.join(timeout=30)
+                _handle(kind, task, res)
     finally:
-        procs = list(getattr(ex, "_processes", {}).values())
-        ex.shutdown(wait=False, cancel_futures=True)
-        if pending:
-            for pr in procs:
-                try:
-                    pr.kill()
-                except Exception:  # noqa: BLE001
-                    pass
+        for rx, (pr, _, _) in active.items():
+            try:
+                pr.kill()
+            except Exception:  # noqa: BLE001
+                pass
 
     # aggregate
     per_sub = {}
